@@ -2,7 +2,8 @@
   Finv (C04), part 27: `clone_node` of an element, given that the temporary top is still a
   parentless node with at most one child after the replay (`Forest.cloneTopOK`).
 -/
-import XotModel.Lemmas.FinvReach2
+import XotModel.Lemmas.FinvUnwrap2
+import XotModel.Lemmas.FinvWs
 
 namespace XotModel
 open HTree
@@ -29,7 +30,7 @@ theorem spliceOut_root_inv {f : Forest} (hi : f.Inv) {x : Nat} {L : List HTree} 
   apply hi.with_roots _ [x]
   · unfold allHandles
     rw [lc.eq]
-    simp only [plug_nil, handlesList_append, handlesList_cons, handles_eq T, lc.hk, List.append_assoc,
+    simp only [plug_nil, fi_handlesList_append, handlesList_cons, fi_handles_eq T, lc.hk, List.append_assoc,
       List.cons_append]
     refine List.Perm.append_left _ ?_
     -- R ++ (kids ++ [x])  ~  x :: (kids ++ R)
